@@ -1061,14 +1061,16 @@ impl VirtualFileSystem for Memfs {
     /// }
     /// ```
     fn config_dir<T: AsRef<str>>(&self, config: T) -> Option<PathBuf> {
-        if let Ok(config_dir) = crate::sys::user::config_dir() {
-            if let Ok(mut config_dirs) = crate::sys::user::sys_config_dirs() {
+        if let Ok(mut config_dirs) = crate::sys::user::sys_config_dirs() {
+            // The user's config directory takes priority when it can be determined, but the
+            // system directories are still searched when it can't e.g. $HOME is not set
+            if let Ok(config_dir) = crate::sys::user::config_dir() {
                 config_dirs.insert(0, config_dir);
-                for config_dir in config_dirs {
-                    let path = config_dir.mash(config.as_ref());
-                    if self.exists(path) {
-                        return Some(config_dir);
-                    }
+            }
+            for config_dir in config_dirs {
+                let path = config_dir.mash(config.as_ref());
+                if self.exists(path) {
+                    return Some(config_dir);
                 }
             }
         }
